@@ -69,5 +69,8 @@ def run(ctx):
                 "every level number with that level's unique table (interpreted on a four-level model).")
     nlv = elevels.run(ctx, F)
     ctx.floor("E-LEVELS", "interpreted iteration / access situations", nlv, 16)
+    ctx.explain("E-PERM.relabel.cond: update_levels / update_levels_seq relabel every level whose position differs from the stale "
+                "number of its nodes (the parallel variant may skip empty levels only).")
+    esort.check_relabel_conditions(ctx, F)
     ctx.not_decided = ("uniqueness/reducedness of the stored graph after arbitrary histories; minimal node counts; "
                        "the then-edge regularity of complement-edge nodes (planned tag-lattice rule)")
